@@ -8,10 +8,10 @@ P=$1; PATCH=$2; TIER=${3:-quick}
 cd /tmp/mutrepo && git checkout -q --detach $(git -C /repo rev-parse HEAD) && git checkout -- . && git clean -fdq
 git apply "$PATCH" || { echo "patch does not apply"; exit 2; }
 mkdir -p /tmp/mutverif
-rsync -a --delete --exclude .git --exclude harness/target --exclude lean/.lake --exclude work --exclude replays --exclude evidence /verif/ /tmp/mutverif/
+rsync -a --delete --exclude .git --exclude harness/target --exclude harness-default/target --exclude lean/.lake --exclude work --exclude replays --exclude evidence /verif/ /tmp/mutverif/
 [ -d /tmp/mutverif/lean/.lake ] || cp -r /verif/lean/.lake /tmp/mutverif/lean/.lake
 cd /tmp/mutverif
-sed -i 's#path = "/repo"#path = "/tmp/mutrepo"#' harness/Cargo.toml
+sed -i 's#path = "/repo"#path = "/tmp/mutrepo"#' harness/Cargo.toml harness-default/Cargo.toml
 sed -i 's#^REPO = "/repo"#REPO = "/tmp/mutrepo"#' tools/gen/common.py check
 mkdir -p evidence work
 ./check "$P" --tier "$TIER" | cut -c1-300 | grep -v "^TIE-BROKEN" | head -8
